@@ -430,6 +430,24 @@ func frameItem(l *items.L, f map[string]interface{}) error {
 	}
 	l.Close()
 	optHexN(l, f["value"])
+	l.Open()
+	if lgs, ok := f["logs"].([]interface{}); ok {
+		for _, x := range lgs {
+			lg := x.(map[string]interface{})
+			l.Open()
+			hexN(l, lg["address"])
+			l.Open()
+			if ts, ok := lg["topics"].([]interface{}); ok {
+				for _, t := range ts {
+					hexN(l, t)
+				}
+			}
+			l.Close()
+			hexB(l, lg["data"])
+			l.Close()
+		}
+	}
+	l.Close()
 	l.Close()
 	return nil
 }
@@ -867,10 +885,7 @@ func cmdCallTracer(args []string) error {
 		if x != nil {
 			x.stats(&cs)
 		}
-		l := items.New("TR").N(uint64(kind)).N(uint64(cfgA))
-		if kind == 1 {
-			l.N(uint64(cfgB))
-		}
+		l := items.New("TR").N(uint64(kind)).N(uint64(cfgA)).N(uint64(cfgB))
 		l.Open()
 		for _, e := range evs {
 			e.item(l)
